@@ -9,7 +9,7 @@ LEVEL = "model_checking"
 MANIFEST = dict(
     category=LEVEL, design_ref="DESIGN.md §5 C15",
     text="Governance.tla (stake/unstake/voteBP/voteDAO/name create+update/transfer/block boundary with the shared lock timestamp, vote shrinking on unstake, "
-         "2/3 threshold for parameter votes effective next block) is model-checked exhaustively (total = sum of stakes = system balance, tally = sum of votes, "
+         "2/3 threshold for parameter votes effective next block, a failed block discarded with its pending parameter values, proposed value 0 never accepted) is model-checked exhaustively (total = sum of stakes = system balance, tally = sum of votes, "
          "vote <= stake, ranking order, voting power = sum of votes, lock periods, minimum, exact unstake, name ownership and price). Every transition of the complete "
          "graphs of a 2-account/3-candidate(with twins)/1-parameter/1-name model and of a deeper 1-account model are replayed (edge cover) through the real ExecuteSystemTx/ExecuteNameTx on a real BlockState, "
          "comparing staking, votes, tallies, stored ranking, GetRankers, totals, balances, parameters (memory, pending, state), names and the in-memory voting power rank "
@@ -17,7 +17,7 @@ MANIFEST = dict(
          "is tried and must be refused without effect. Seeded random histories (6 accounts, 5 candidates with twins, 3 parameter votes, 3 names, real block numbers "
          "around the 86400-block lock) are validated event by event by TLC against GovernanceTrace.tla.",
     note="in-package harness at the ExecuteSystemTx/ExecuteNameTx level (contract/system and contract/name build natively), in-memory state DB; "
-         "admission is types.ValidateSystemTx only; GASPRICE votes, SetContractOwner, name-to-name updates and contract-owned names are not exercised",
+         "admission is types.ValidateSystemTx only; a failed block is emulated as chain.executeBlock does it (block state dropped, voting power rank reloaded, CommitParams(false)); GASPRICE votes occur in the random histories only; SetContractOwner, name-to-name updates and contract-owned names are not exercised",
     technique="TLA+/TLC exhaustive model; replay of an edge cover of the TLC graph into the real contracts with refusal probing; TLC trace validation of random histories")
 SPEC_DIR = os.path.join(vlib.SPEC, "gov")
 
